@@ -249,6 +249,8 @@ func runC18(c *Ctx) {
 	}
 	c.listingKeepsEveryRevision()
 	c.adoptionOnEveryReconcile()
+	// "are found": the revisions of a migrated set have no controller until they are adopted; the history lister keeps them
+	c.withOnly(map[string]string{"C18.4h-unowned-revisions-are-kept": "C18.4-orphan-revisions-stay-in-the-history"}, nil, "C18.4-history-lister", 1, func() { c.listerFilters("C18.4h", "C18.4h-dedup") })
 	c.convertedUnmodified("C18.1")
 	// the control's adoption patches every revision it is handed: its loop is left early only with an error
 	if m := ifaceMethod(c.P, load.CtrlPkg, "StatefulSetControlInterface", "AdoptOrphanRevisions"); m != nil {
